@@ -294,7 +294,7 @@ def run(chk):
     chk.undecided = ["that decoding itself is independent of stream cuts (value-level; see C03)"]
     r1_no_consumer_discards(chk)
     r3_phase_handover_drains(chk)
-    # r4_bytes_read_reach_engine(chk)  # enabled once the triage of its report on the pinned tree is back
+    r4_bytes_read_reach_engine(chk)
     from rules.common import rule_gate_closes_after_stage
     r2 = chk.rule("R2", "a greeting stage closes its re-entry gate only when the stage is finished", "T3 region + T4",
                   "in the ZMTP engine's byte-driven handlers, inside a region guarded by a gate on self.<field>, no assignment of that field is followed (within the region) by a need-more-bytes early return; otherwise the outcome depends on where a read boundary falls")
